@@ -513,6 +513,11 @@ func (g *caseGen) contexts() {
 	// GetBlockData, which sends getdata and enters both hashes into
 	// c.GetBlockInProgress without a compact-block collector (col == nil).
 	add(&ctxt{name: "dl", prefix: []Event{ver, verack, msg(g.t("sendheaders")), msg(g.t("sendcmpct")), msg(g.t("headers")), msg(g.t("headers-0")), {T: "tick"}}})
+	// node-initiated requests in flight: "pinged" = relay-ready connection on which the
+	// node has sent its ping (TryPing through a tick 16 s later); "gh" = the node's first
+	// getheaders is out (first tick after the handshake), no ping yet
+	add(&ctxt{name: "pinged", prefix: append(append([]Event{}, ready...), Event{T: "tick", Cmd: "+16s"})})
+	add(&ctxt{name: "gh", prefix: []Event{ver, verack, msg(g.t("sendheaders")), msg(g.t("sendcmpct")), {T: "tick"}}})
 	add(&ctxt{name: "xa", prefix: []Event{ver, verack, msg(g.t("xauth"))}})
 	add(&ctxt{name: "friend", friend: true, prefix: []Event{msg(g.t("version-gocoin")), verack, msg(g.t("xauth-friend"))}})
 }
@@ -670,4 +675,41 @@ func (g *caseGen) framing(cx *ctxt) {
 		}
 	}
 	g.add("frame/encrypted-bit/len=max", "ping", cx, rawFrame(magic, "ping", 0xffffffff, []byte{0, 0, 0, 0}, nil))
+}
+
+// seqFamily: every sequence of the given depths over the request/response alphabet
+// around a ping and a getheaders in flight.
+func (g *caseGen) seqFamily(cx *ctxt, maxDepth int) {
+	unk := [32]byte{0xab, 0xcd, 0xef, 9, 8, 7, 6, 5, 4, 3, 2, 1}
+	type sym struct {
+		name string
+		ev   Event
+	}
+	al := []sym{
+		{"tick", Event{T: "tick", Cmd: "+16s"}},
+		{"inv-unknown-block", mev("inv", inv(invEntry(2, unk)))},
+		{"headers-0", msg(g.t("headers-0"))},
+		{"headers-2", msg(g.t("headers"))},
+		{"pong-match", Event{T: "pong", Cmd: "match"}},
+		{"pong-stale", Event{T: "pong", Cmd: "stale"}},
+		{"pong-short", Event{T: "pong", Cmd: "short"}},
+		{"getheaders", msg(g.t("getheaders"))},
+	}
+	var rec func(names []string, evs []Event)
+	rec = func(names []string, evs []Event) {
+		if len(evs) > 0 {
+			nm := names[0]
+			for _, n := range names[1:] {
+				nm += "," + n
+			}
+			g.add("seq/"+nm, "req-resp", cx, evs...)
+		}
+		if len(evs) == maxDepth {
+			return
+		}
+		for _, a := range al {
+			rec(append(append([]string{}, names...), a.name), append(append([]Event{}, evs...), a.ev))
+		}
+	}
+	rec(nil, nil)
 }
